@@ -64,3 +64,42 @@ func vpH_C06_T_no_give_up() {
 	vpAssert("C06.no-give-up", s.cb.promotes >= 1 && s.e.IsLeader())
 	vpAssert("C06.no-give-up:time", vpImplies(s.cb.promotes >= 1, s.cb.promoteAt <= tv+int64(600*time.Millisecond+500*time.Millisecond)))
 }
+
+var vpC06StopYield bool
+
+// vpH_C06_T_second_vacancy: a candidate that already led once (through the follower path) is deposed by a
+// heartbeat conflict at an explorer-chosen store-visible point and, later, the record becomes vacant again
+// without notification: it must fill the vacancy within the bound (its follower-side machinery must have
+// survived its own term).
+func vpH_C06_T_second_vacancy() {
+	H := time.Second
+	vpSetOpt("rand-fixed", 1)
+	vpC06StopYield = true
+	s := vpFollowingInstance(H, nil)
+	vpC06StopYield = false
+	time.Sleep(450 * time.Millisecond)
+	s.st.write("env:other", "delete", nil, true, 0)
+	time.Sleep(200 * time.Millisecond)
+	vpQuiesce()
+	if !s.e.IsLeader() {
+		vpEndPath("not-elected")
+	}
+	s.st.noEvents = true
+	go func() {
+		vpYieldLazy("env.preempt", 2*H)
+		s.st.write("env:hi", "update", vpRecMk("hi", "tok-hi", 9), false, s.st.lastSeq)
+		vpEvent("preempted")
+	}()
+	time.Sleep(3*H + H/2)
+	vpQuiesce()
+	if s.e.IsLeader() {
+		vpEndPath("still-leader")
+	}
+	s.st.write("env:hi", "delete", nil, true, 0)
+	tv := vpNow()
+	time.Sleep(1200 * time.Millisecond)
+	vpQuiesce()
+	vpCover("C06.second-vacancy")
+	vpAssert("C06.filled-in-bound", s.e.IsLeader() && s.cb.promotes >= 2)
+	vpAssert("C06.filled-in-bound:time", vpImplies(s.cb.promotes >= 2, s.cb.promoteAt <= tv+int64(600*time.Millisecond)))
+}
